@@ -135,6 +135,83 @@ void check_ops(vh::Ctx& c, Rng& r, int d, const Vec& a, const Vec& b, double s, 
   { SU_vector T(A); T += T; CHECK_OP("add_assign_self", T, a[k] + a[k], 0); }
   { SU_vector T(A); T -= T; CHECK_OP("sub_assign_self", T, a[k] - a[k], 0); }
   { SU_vector T(A); T = T; CHECK_OP("self_assign", T, a[k], 0); }
+  // expressions stored back into one of their own operands ("compound assignment ... act on the vector as the matrix
+  // operations"): the allowance covers a fused multiply-add (one rounding of the product less than the model)
+#define CHECK_INPLACE(name, stmt, wantexpr, magexpr)                         \
+  {                                                                          \
+    SU_vector T(A); stmt;                                                    \
+    c.eval(); c.count("op." name);                                           \
+    if ((int)T.Dim() != d) c.violation("C01:op:" name ":dim", "wrong dim"); \
+    else for (int k = 0; k < n; k++) { double want = (wantexpr), mag = (magexpr); if (!(T[k] == want || std::fabs(T[k] - want) <= 2 * EPS * mag)) { bad(name, k, T[k], want); break; } } \
+  }
+  CHECK_INPLACE("inplace_scale", T = T * s, a[k] * s, std::fabs(a[k] * s));
+  CHECK_INPLACE("inplace_add_scaled_self", T += T * s, a[k] + a[k] * s, std::fabs(a[k]) + std::fabs(a[k] * s));
+  CHECK_INPLACE("inplace_sub_scaled_self", T -= s * T, a[k] - s * a[k], std::fabs(a[k]) + std::fabs(a[k] * s));
+  CHECK_INPLACE("inplace_negate", T = -T, -a[k], std::fabs(a[k]));
+  CHECK_INPLACE("inplace_add_other", T = T + B, a[k] + b[k], 0.0);
+  CHECK_INPLACE("inplace_other_minus_self", T = B - T, b[k] - a[k], 0.0);
+  CHECK_INPLACE("inplace_add_sum_with_self", T += T + B, a[k] + (a[k] + b[k]), 0.0);
+  CHECK_INPLACE("inplace_sub_difference_with_self", T -= B - T, a[k] - (b[k] - a[k]), 0.0);
+  CHECK_INPLACE("inplace_add_scaled_other", T += B * s, a[k] + b[k] * s, std::fabs(a[k]) + std::fabs(b[k] * s));
+#undef CHECK_INPLACE
+  // the scalar of a compound multiplication / division may be one of the vector's own components (v /= v[0]):
+  // "scalar multiplication/division act on the vector as the matrix operation" with the value the scalar had at the call
+  {
+    int k0 = r.pick(n - 1);   // not the last one: everything after it would be scaled with an overwritten value
+    for (int tries = 0; tries < n && (a[k0] == 0 || a[k0] == 1); tries++) k0 = (k0 + 1) % (n - 1);
+    double f = a[k0];
+    { SU_vector T(A); T *= T[k0]; c.eval(); c.count("op.mul_assign_by_own_component");
+      for (int k = 0; k < n; k++) if (!close(T[k], a[k] * f, 0)) { bad("mul_assign_by_own_component", k, T[k], a[k] * f); break; } }
+    if (f != 0) { SU_vector T(A); T /= T[k0]; c.eval(); c.count("op.div_assign_by_own_component");
+      for (int k = 0; k < n; k++) if (!close(T[k], a[k] / f, 2)) { bad("div_assign_by_own_component", k, T[k], a[k] / f); break; } }
+    { ExtVec E(a, d); E.v *= E.buf[k0]; c.eval();
+      for (int k = 0; k < n; k++) if (!close(E.v[k], a[k] * f, 0)) { bad("mul_assign_by_own_buffer_element", k, E.v[k], a[k] * f); break; } }
+    { SU_vector R_ = A * A[k0]; c.eval(); for (int k = 0; k < n; k++) if (!close(R_[k], a[k] * f, 0)) { bad("mul_by_own_component", k, R_[k], a[k] * f); break; } }
+  }
+  // expressions whose operands are themselves unevaluated expressions (every arithmetic member of the expression type)
+  {
+    Vec cc(n); for (int k = 0; k < n; k++) cc[k] = b[n - 1 - k];
+    SU_vector C = make(cc);
+#define CHECK_NESTED(name, expr, wantexpr, magexpr)                          \
+    {                                                                        \
+      SU_vector R_ = (expr);                                                 \
+      c.eval(); c.count("op.nested." name);                                  \
+      if ((int)R_.Dim() != d) c.violation("C01:op:nested:" name ":dim", "wrong dim"); \
+      else for (int k = 0; k < n; k++) { double want = (wantexpr), mag = (magexpr); if (!(R_[k] == want || std::fabs(R_[k] - want) <= 2 * EPS * mag)) { bad("nested:" name, k, R_[k], want); break; } } \
+    }
+    CHECK_NESTED("(a+b)*s", (A + B) * s, (a[k] + b[k]) * s, 0.0);
+    CHECK_NESTED("(a-b)+c", (A - B) + C, (a[k] - b[k]) + cc[k], 0.0);
+    CHECK_NESTED("(a+b)-c", (A + B) - C, (a[k] + b[k]) - cc[k], 0.0);
+    CHECK_NESTED("c+(a-b)", C + (A - B), cc[k] + (a[k] - b[k]), 0.0);
+    CHECK_NESTED("-(a-b)", -(A - B), -(a[k] - b[k]), 0.0);
+    CHECK_NESTED("-(move(a)-b)", -(SU_vector(A) - B), -(a[k] - b[k]), 0.0);
+    CHECK_NESTED("(a+b)+(a-c)", (A + B) + (A - C), (a[k] + b[k]) + (a[k] - cc[k]), 0.0);
+    CHECK_NESTED("(a+b)-(c-a)", (A + B) - (C - A), (a[k] + b[k]) - (cc[k] - a[k]), 0.0);
+    CHECK_NESTED("(a*s)+(b*s)", (A * s) + (B * s), a[k] * s + b[k] * s, std::fabs(a[k] * s) + std::fabs(b[k] * s));
+    CHECK_NESTED("(-a)-(-b)", (-A) - (-B), (-a[k]) - (-b[k]), 0.0);
+    CHECK_NESTED("((a+b)+c)+a", ((A + B) + C) + A, ((a[k] + b[k]) + cc[k]) + a[k], 0.0);
+    { SU_vector T(C); T += (A + B) * s; c.eval(); for (int k = 0; k < n; k++) { double want = cc[k] + (a[k] + b[k]) * s; if (!(std::fabs(T[k] - want) <= 2 * EPS * (std::fabs(cc[k]) + std::fabs((a[k] + b[k]) * s)))) { bad("nested:c+=(a+b)*s", k, T[k], want); break; } } }
+#undef CHECK_NESTED
+    if (C.GetComponents() != cc) c.violation("C01:op:operand-modified", vh::fmt("[%s] d=%d c changed", cls, d));
+  }
+  // the same operations on a vector that lives in user-supplied storage: identical bits, same buffer afterwards
+  {
+    ExtVec E(a, d);
+    auto same = [&](const char* name, const SU_vector& got, const SU_vector& want) { c.eval(); if (!same_bits(got, want)) c.violation(std::string("C01:op:user-storage:") + name, vh::fmt("[%s] d=%d differs from the same operation on an owning vector", cls, d)); };
+    try {
+      same("add", E.v + B, A + B); same("add_reversed", B + E.v, B + A); same("sub", E.v - B, A - B); same("sub_reversed", B - E.v, B - A);
+      same("neg", -E.v, -A); same("mul", E.v * s, A * s); same("real", E.v.Real(), A.Real()); same("imag", E.v.Imag(), A.Imag());
+      c.eval(3);
+      if (E.v.GetComponents() != a) c.violation("C01:op:user-storage:GetComponents", vh::fmt("[%s] d=%d", cls, d));
+      if (!(E.v == A) || !(A == E.v)) c.violation("C01:op:user-storage:equality", vh::fmt("[%s] d=%d", cls, d));
+      { auto m1 = E.v.GetGSLMatrix(); auto m2 = A.GetGSLMatrix(); if (!(from_gsl(m1.get()).a == from_gsl(m2.get()).a)) c.violation("C01:op:user-storage:GetGSLMatrix", vh::fmt("[%s] d=%d", cls, d)); }
+      if (!E.bound() || E.image() != a) c.violation("C01:op:user-storage:operand-modified-or-rebound", vh::fmt("[%s] d=%d", cls, d));
+      { ExtVec T(a, d); SU_vector O(A); T.v += B; O += B; same("add_assign", T.v, O); T.v -= B; O -= B; same("sub_assign", T.v, O); T.v *= s; O *= s; same("mul_assign", T.v, O); T.v.Transpose(); O.Transpose(); same("transpose", T.v, O);
+        T.v = B; same("copy_assign_same_size", T.v, B); T.v = A + B; same("assign_sum", T.v, A + B);
+        if (!T.bound()) c.violation("C01:op:user-storage:rebound-by-in-place-operation", vh::fmt("[%s] d=%d", cls, d)); }
+      c.count("op.user_storage_block");
+    } catch (std::exception& e) { c.violation("C01:op:user-storage:exception", vh::fmt("[%s] d=%d: %s", cls, d, e.what())); }
+  }
   // operands untouched
   c.eval();
   if (A.GetComponents() != a || B.GetComponents() != b) c.violation("C01:op:operand-modified", vh::fmt("[%s] d=%d an operand changed", cls, d));
